@@ -4,11 +4,22 @@ CRATE = "c11"
 COQ_DIR = "C11"
 PROFILES = ["debug"]
 CORR_IMPORT = "From RlibV Require Import C11.Model C11.Corr.\nOpen Scope Z_scope."
-AUDIT_IMPORT = "From Coq Require Import ZArith List.\nFrom RlibV Require Import C11.Model C11.Corr C11.Properties.\nOpen Scope Z_scope."
+AUDIT_IMPORT = "From Coq Require Import ZArith List.\nFrom RlibV Require Import C11.Model C11.Corr C11.Trace C11.Properties.\nOpen Scope Z_scope."
 EXPLAIN = "explain"
 AXIOM_ALLOW = []
 THEOREMS = [
     ("c11_gcd", "forall a b : Z, Z.abs b < 2 ^ 130 -> gcd a b = Some (Z.gcd a b)"),
+    ("c11_egcd_sound", "forall a b c x y : Z, egcd a b c = Ret (Some (x, y)) -> a * x + b * y = c"),
+    ("c11_egcd_complete", "forall a b c : Z, (a, b) <> (0, 0) -> Z.abs a < 2 ^ 130 -> egcd a b c <> Panic /\\ (egcd a b c = Ret None <-> ~ (Z.gcd a b | c))"),
+    ("c11_egcd_zero_panics", "forall c : Z, egcd 0 0 c = Panic"),
+    ("c11_lcm", "forall a b : Z, (a, b) <> (0, 0) -> Z.abs b < 2 ^ 130 -> lcm a b = Some (Z.lcm a b)"),
+    ("c11_lcm_zero_panics", "lcm 0 0 = None"),
+    ("c11_crt", "forall a1 m1 a2 m2 : Z, 1 <= m1 < 2 ^ 130 -> 1 <= m2 < 2 ^ 130 -> 0 <= a1 < m1 -> 0 <= a2 < m2 -> "
+                "((Z.gcd m1 m2 | a2 - a1) -> exists x, crt a1 m1 a2 m2 = Ret (Some x) /\\ 0 <= x < Z.lcm m1 m2 /\\ x mod m1 = a1 /\\ x mod m2 = a2) "
+                "/\\ (~ (Z.gcd m1 m2 | a2 - a1) -> crt a1 m1 a2 m2 = Ret None)"),
+    ("c11_crt_unique", "forall m1 m2 x y : Z, 1 <= m1 -> 1 <= m2 -> 0 <= x < Z.lcm m1 m2 -> 0 <= y < Z.lcm m1 m2 -> "
+                       "x mod m1 = y mod m1 -> x mod m2 = y mod m2 -> x = y"),
+    ("c11_model_implies_spec", "forall c : case, in_scope c -> model_check c = true -> spec_check c = true"),
 ]
 RULE = ("exhaustive cube |a|,|b|,|c| <= K (K=6 quick, 12 thorough) for gcd/lcm/egcd, all (m1,m2) <= K with all reduced "
         "residues for crt, plus boundary-biased samples up to 2^20 (zeros, negatives, equal operands, multiples, "
